@@ -473,6 +473,7 @@ def monitor_dataflow(w: World, wf_spec: dict[str, dict[str, Any]]) -> tuple[str,
     ids = w.refs
     starts: dict[str, list[int]] = {}
     completions: dict[str, list[int]] = {}
+    rearms: dict[str, list[int]] = {}
     for r in aud:
         if r["tbl"] != "stage":
             continue
@@ -480,6 +481,8 @@ def monitor_dataflow(w: World, wf_spec: dict[str, dict[str, Any]]) -> tuple[str,
             starts.setdefault(r["id"], []).append(r["seq"])
         if r["new"] in COMPLETE:
             completions.setdefault(r["id"], []).append(r["seq"])
+        if r["new"] == "NOT_STARTED":
+            rearms.setdefault(r["id"], []).append(r["seq"])
     for e in ents:
         ref = e["ref"]
         anc = _ancestors_of(wf_spec, ref)
@@ -496,11 +499,15 @@ def monitor_dataflow(w: World, wf_spec: dict[str, dict[str, Any]]) -> tuple[str,
             if not done:
                 continue  # had not completed when this stage was started
             cseq = done[-1]
+            armed = [a_ for a_ in rearms.get(ids.get(r, ""), []) if a_ < cseq]
+            since = armed[-1] if armed else 0  # a jump re-armed the ancestor: what it published before that is gone
             last = None
             for p in ents:
-                if p["ref"] == r and p["audit_seq"] < cseq and ("o_" + r) in (p.get("out") or {}):
+                if p["ref"] == r and since <= p["audit_seq"] < cseq and ("o_" + r) in (p.get("out") or {}):
                     last = p
             if last is None:
+                if armed and ("o_" + r) in ctx:
+                    return ("stale_output_of_rearmed_ancestor/%s<-%s" % (ref, r), {"stage": ref, "ancestor": r, "seen": ctx.get("o_" + r), "note": "the ancestor was re-armed and has not run (or published) since"})
                 continue
             want = last["out"]["o_" + r]
             got = ctx.get("o_" + r, "<absent>")
